@@ -307,12 +307,12 @@ Definition read_line (s : bytes) : option (bytes * bytes) :=
   end.
 
 Definition parse_request_line (line : bytes) : res start_line :=
-  match fields line with
+  match fields_go line with
   | [m; u; v] => let! uri := parse_addr_spec u in Ok (SReq m uri v)
   | _ => Err
   end.
 Definition parse_status_line (line : bytes) : res start_line :=
-  match fields line with
+  match fields_go line with
   | v :: c :: (_ :: _) as reason =>
       match atoi c with
       | Some code => Ok (SResp v code (join_byte " "%char reason))
